@@ -367,6 +367,7 @@ func c18Scenarios(c *core.Ctx, race bool) []core.Scenario {
 	alpha := c18Alphabet()
 	depth := c.Pick(4, 5)
 	var out []core.Scenario
+	out = append(out, c18DefaultTransport("simplehttp-as-default-transport"))
 	// exhaustive histories, grouped by their first letter(s) into scenarios
 	groups := len(alpha)
 	for g := 0; g < groups; g++ {
